@@ -247,9 +247,23 @@ package rag
 //@ func (*Exporter) ExportToString
 //@   property C14
 //@   flags frameonly, recvreadonly
-//@ func (*Exporter) collectCSVColumns
+// the header is the union over ALL chunks: every non-standard metadata key of every chunk becomes a column (no loop
+// stops early, keys are only ever added, every collected key is emitted)
+//@ func (*Exporter) collectCSVColumns results (res)
 //@   property C14
-//@   flags frameonly, recvreadonly
+//@   flags nosafety, recvreadonly
+//@   loop 0:
+//@     exhaustive
+//@     step keys_are_only_added: forall k string :: {has(metadataKeys, k)} has(prev(metadataKeys), k) ==> has(metadataKeys, k)
+//@   loop 1:
+//@     exhaustive
+//@     invariant forall k string :: {has(metadataKeys, k)} has(entry(metadataKeys), k) ==> has(metadataKeys, k)
+//@     step non_standard_key_becomes_a_column: !isStandardColumn(key) ==> has(metadataKeys, key)
+//@     step keys_are_only_added: forall k string :: {has(metadataKeys, k)} has(prev(metadataKeys), k) ==> has(metadataKeys, k)
+//@   loop 2:
+//@     exhaustive
+//@   loop 3:
+//@     exhaustive
 
 // ---- C13: overlap text ----
 // The character overlap is a trailing part of the text (up to trimmed white space), never longer than the configured
